@@ -14,6 +14,45 @@ use walkdir::DirEntry;
 
 use super::Follow;
 
+/// Split a path, exactly as it is spelled, into the part before its last
+/// component and that component.  Unlike `Path::parent()`/`Path::file_name()`,
+/// which normalise `.` away and know no name for `..`, every component counts:
+/// `d/.` is `d` and `.`, `d/..` is `d` and `..`, `d/./x` is `d/.` and `x`.
+/// Trailing slashes belong to neither part.
+#[cfg(unix)]
+fn split_last(path: &Path) -> (Option<&Path>, &OsStr) {
+    use std::os::unix::ffi::OsStrExt;
+
+    let bytes = path.as_os_str().as_bytes();
+    let Some(end) = bytes.iter().rposition(|&b| b != b'/') else {
+        // "" and "/": no parent, and the path is its own name.
+        return (None, path.as_os_str());
+    };
+    let start = bytes[..end]
+        .iter()
+        .rposition(|&b| b == b'/')
+        .map_or(0, |i| i + 1);
+    let parent = match start {
+        0 | 1 => &bytes[..start],
+        _ => &bytes[..start - 1],
+    };
+    (
+        Some(Path::new(OsStr::from_bytes(parent))),
+        OsStr::from_bytes(&bytes[start..=end]),
+    )
+}
+
+#[cfg(not(unix))]
+fn split_last(path: &Path) -> (Option<&Path>, &OsStr) {
+    // Path::file_name() only works if the last component is normal
+    let name = path
+        .components()
+        .next_back()
+        .map(|c| c.as_os_str())
+        .unwrap_or_else(|| path.as_os_str());
+    (path.parent(), name)
+}
+
 /// Wrapper for a directory entry.
 #[derive(Debug)]
 enum Entry {
@@ -289,18 +328,15 @@ impl WalkEntry {
         }
     }
 
-    /// Get the name of this entry.
+    /// Get the name of this entry: the last component of its path as spelled.
     pub fn file_name(&self) -> &OsStr {
-        match &self.inner {
-            Entry::Explicit(path, _) => {
-                // Path::file_name() only works if the last component is normal
-                path.components()
-                    .next_back()
-                    .map(|c| c.as_os_str())
-                    .unwrap_or_else(|| path.as_os_str())
-            }
-            Entry::WalkDir(ent) => ent.file_name(),
-        }
+        split_last(self.path()).1
+    }
+
+    /// Get the part of this entry's path before its last component, like
+    /// `Path::parent()` (`Some("")` if there is none, `None` for `/`).
+    pub fn parent(&self) -> Option<&Path> {
+        split_last(self.path()).0
     }
 
     /// Get the depth of this entry below the root.
